@@ -427,6 +427,16 @@ def structure_probe(nat):
         norm = lambda s_: s_.replace("L 0", "N").strip()
         if norm(res) != "OK " + norm(tok_of(sh)):
             return True, "(display %s) prints %r, which reads back as %s" % (tok_of(sh), text, res[:60])
+    # lists that contain the symbol quote (a printer that abbreviates must not lose elements), symbols next to characters
+    Q = "Y " + "quote".encode().hex()
+    A, B = "Y " + "a".encode().hex(), "Y " + "b".encode().hex()
+    for tok, want in [("L 2 %s %s" % (Q, A), None), ("L 3 %s %s %s" % (Q, A, B), "(quote a b)"), ("D 2 %s I 1 I 2" % Q, "(quote 1 . 2)"), ("L 3 I 1 %s I 2" % Q, "(1 quote 2)"),
+                      ("L 1 %s" % Q, "(quote)"), ("L 2 L 3 %s %s %s I 7" % (Q, A, B), "((quote a b) 7)"), ("VI 2 L 3 %s %s %s I 7" % (Q, A, B), "#((quote a b) 7)")]:
+        text, res = native_roundtrip(nat, tok)
+        if want is not None and text != want:
+            return True, "(display %s) prints %r (expected %r)" % (tok, text, want)
+        if res.strip() != "OK " + tok:
+            return True, "(display %s) prints %r, which reads back as %s" % (tok, text, res[:60])
     return False, "native print / read-back probes of %d list and vector shapes agree" % len(SHAPES)
 
 
